@@ -40,7 +40,7 @@ const (
 // groups (kind, variant) in which confirmed hangs were seen; after two the sweep stops (verdict clear)
 var c05hangGroups int
 
-var c05kinds = []string{"si", "gp", "ia", "au", "he", "rp", "cb", "nw"}
+var c05kinds = []string{"si", "gp", "ia", "au", "he", "rp", "cb", "nw", "nv"}
 
 var c05kindName = map[string]string{"si": "generic.SendCommand", "gp": "generic.GetPrompt", "ia": "generic.SendInteractive",
 	"au": "in-channel telnet login (Open)", "he": "netconf.Open (server hello)", "rp": "netconf RPC", "cb": "generic.SendWithCallbacks",
@@ -86,7 +86,12 @@ var c05ncOps = []c05ncOp{
 	}},
 }
 
+var c05nvOps = []string{"SendConfigs", "SendConfig", "SendInteractive(configuration)", "AcquirePriv", "SendCommand(from exec)"}
+
 func c05name(cs c05case) string {
+	if cs.kind == "nv" {
+		return "network." + c05nvOps[cs.variant]
+	}
 	if cs.kind == "rq" {
 		return "netconf." + c05ncOps[cs.variant%100].name
 	}
@@ -94,6 +99,9 @@ func c05name(cs c05case) string {
 }
 
 func c05sig(cs c05case) string {
+	if cs.kind == "nv" {
+		return "nv:" + strings.Fields(strings.ReplaceAll(c05nvOps[cs.variant], "(", " "))[0]
+	}
 	if cs.kind == "rq" {
 		return "rq:" + c05ncOps[cs.variant%100].name
 	}
@@ -138,7 +146,7 @@ func (cs c05case) line() string {
 // rough exchange lengths, used only to budget delivery time: on a loaded machine every read costs
 // about one millisecond whatever the configured read delay (sleep granularity), so an exchange
 // that is delivered one byte per read needs that much time before its stall point is even reached
-var c05len = map[string]int{"si": 40, "gp": 8, "ia": 60, "au": 30, "he": 190, "rp": 150, "rq": 170, "cb": 45, "nw": 100}
+var c05len = map[string]int{"si": 40, "gp": 8, "ia": 60, "au": 30, "he": 190, "rp": 150, "rq": 170, "cb": 45, "nw": 100, "nv": 170}
 
 // c05timeouts: connection-wide and per-operation timeout of a case (perOp < 0: not given).
 func c05timeouts(cs c05case) (conn, perOp time.Duration) {
@@ -170,7 +178,7 @@ func c05settings(kind string) []string {
 		return []string{"conn"}
 	case "cb": // the timeout is an explicit argument: equal to / shorter than the connection-wide one
 		return []string{"conn", "pshort"}
-	case "nw": // the implicit acquire always runs on the connection-wide timeout
+	case "nw", "nv": // the navigation always runs on the connection-wide timeout
 		return []string{"conn", "plong"}
 	}
 	return []string{"conn", "pshort", "plong"}
@@ -178,6 +186,8 @@ func c05settings(kind string) []string {
 
 func c05variants(kind string) int {
 	switch kind {
+	case "nv":
+		return len(c05nvOps)
 	case "si":
 		return 4
 	case "ia", "rp":
@@ -201,6 +211,11 @@ type c05env struct {
 	wantT       func(phase int) time.Duration
 	openIsOp    bool
 	cmpResult   bool // the model's result is comparable with the operation's result
+	// cleanPhase[i]: a stall inside phase i began after a return was sent, so the device's input
+	// line is clean and the recovery clause applies (nil: only the last phase counts)
+	cleanPhase []bool
+	beforeNext func()
+	nextCheck  func() string
 }
 
 func hx(s string) string { return vlib.Hex([]byte(s)) }
@@ -409,12 +424,184 @@ func c05build(cs c05case) (*c05env, error) {
 		}
 		e.nextWant = c05nextWant
 		e.phaseWrites = []int{1, 1, 1, 1, 1, 1}
+		e.cleanPhase = []bool{true, false, true, true, false, true}
+		e.beforeNext = func() { d.Channel.TimeoutOps = c05Long }
 		e.modelKind = "nw"
 		e.T = conn
 		e.modelParams = []string{"1000", "0a", "1", hx("enable"), hx("show x1"), "4", strconv.Itoa(int(eff / time.Millisecond))}
 		e.wantT = func(phase int) time.Duration {
 			if phase < 4 {
 				return conn
+			}
+			return eff
+		}
+	case "nv":
+		// three-level device; the timed-out operation navigates, the recovery exchange is of a
+		// different kind and needs a different level; the device logs the mode every line arrived in
+		start := "privilege-exec"
+		if cs.variant == 4 {
+			start = "exec"
+		}
+		dev := sim.NewPrivDev([]sim.PrivLevel{
+			{Name: "exec", Prompt: "router>"},
+			{Name: "privilege-exec", Prev: "exec", Esc: "enable", Deesc: "disable", Prompt: "router#"},
+			{Name: "configuration", Prev: "privilege-exec", Esc: "configure terminal", Deesc: "end", Prompt: "router(config)#"},
+		}, "", start)
+		dev.Output = func(mode, line string) string { return "out of " + line + " in " + mode + "\nline two\n" }
+		dev.Seg = c05seg(cs)
+		e.pipe = dev.Pipe
+		levels := map[string]*network.PrivilegeLevel{
+			"exec":           {Name: "exec", Pattern: facts.C05ExecPattern},
+			"privilege-exec": {Name: "privilege-exec", Pattern: facts.C05PrivPattern, PreviousPriv: "exec", Escalate: "enable", Deescalate: "disable"},
+			"configuration":  {Name: "configuration", Pattern: facts.C05ConfPattern, PreviousPriv: "privilege-exec", Escalate: "configure terminal", Deescalate: "end"},
+		}
+		d, err := network.NewDriver("h", append(common, options.WithCustomTransport(dev), options.WithAuthBypass(),
+			options.WithPrivilegeLevels(levels), options.WithDefaultDesiredPriv("privilege-exec"))...)
+		if err != nil {
+			return nil, err
+		}
+		e.start = dev.Start
+		e.prelude = func() error {
+			d.Channel.TimeoutOps = c05Long
+			defer func() { d.Channel.TimeoutOps = conn }()
+			if err := d.Open(); err != nil {
+				return err
+			}
+			if _, err := d.Channel.ReadUntilPrompt(c05ctx()); err != nil {
+				return err
+			}
+			if cs.variant != 4 {
+				// bring the driver to its default desired level with a verified cache
+				_, err := d.SendCommand("show pre")
+				return err
+			}
+			return nil
+		}
+		e.closeFn = func() { _ = d.Close() }
+		e.beforeNext = func() { d.Channel.TimeoutOps = c05Long }
+		e.cmpResult = false
+		ms := func(t time.Duration) string { return strconv.Itoa(int(t / time.Millisecond)) }
+		var units []string
+		var wants []time.Duration
+		nunits := 0
+		addG := func() {
+			units = append(units, "g", ms(conn))
+			e.phaseWrites = append(e.phaseWrites, 1)
+			e.cleanPhase = append(e.cleanPhase, true)
+			wants = append(wants, conn)
+			nunits++
+		}
+		addS := func(t time.Duration, cmd string) {
+			units = append(units, "s", ms(t), "1", hx(cmd))
+			e.phaseWrites = append(e.phaseWrites, 1, 1)
+			e.cleanPhase = append(e.cleanPhase, false, true)
+			wants = append(wants, t, t)
+			nunits++
+		}
+		wrap := 0
+		payloadMode, payloadLine := "privilege-exec", c05nextCmd
+		e.nextWant = "out of " + c05nextCmd + " in privilege-exec\nline two"
+		e.next = func() (string, error) {
+			r, err := d.SendCommand(c05nextCmd, opoptions.WithTimeoutOps(c05Long))
+			if err != nil {
+				return "", err
+			}
+			return r.Result, nil
+		}
+		join := func(m *response.MultiResponse) string {
+			var rs []string
+			for _, r := range m.Responses {
+				rs = append(rs, r.Result)
+			}
+			return strings.Join(rs, "|")
+		}
+		switch cs.variant {
+		case 0, 1:
+			addG()
+			addS(conn, "configure terminal")
+			addG()
+			addS(eff, "set a1")
+			addS(eff, "set b2")
+			if cs.variant == 0 {
+				e.op = func() (string, error) {
+					m, err := d.SendConfigs([]string{"set a1", "set b2"}, opOpts...)
+					if err != nil {
+						return "", err
+					}
+					return join(m), nil
+				}
+			} else {
+				e.op = func() (string, error) {
+					r, err := d.SendConfig("set a1\nset b2", opOpts...)
+					if err != nil {
+						return "", err
+					}
+					return r.Result, nil
+				}
+			}
+		case 2:
+			addG()
+			addS(conn, "configure terminal")
+			addG()
+			units = append(units, "i", ms(eff), "2", hx("set q1"), "-", "0", hx("set q2"), "-", "0")
+			e.phaseWrites = append(e.phaseWrites, 2, 2)
+			e.cleanPhase = append(e.cleanPhase, true, true)
+			wants = append(wants, eff, eff)
+			nunits++
+			ev := []*channel.SendInteractiveEvent{{ChannelInput: "set q1"}, {ChannelInput: "set q2"}}
+			e.op = func() (string, error) {
+				r, err := d.SendInteractive(ev, append([]util.Option{opoptions.WithPrivilegeLevel("configuration")}, opOpts...)...)
+				if err != nil {
+					return "", err
+				}
+				return r.Result, nil
+			}
+		case 3:
+			addG()
+			addS(conn, "configure terminal")
+			addG()
+			e.op = func() (string, error) { return "", d.AcquirePriv("configuration") }
+		case 4:
+			addG()
+			addS(conn, "enable")
+			addG()
+			addS(eff, "show x1")
+			wrap = 3
+			e.op = func() (string, error) {
+				r, err := d.SendCommand("show x1", opOpts...)
+				if err != nil {
+					return "", err
+				}
+				return r.Result, nil
+			}
+			payloadMode, payloadLine = "configuration", "set ~c3"
+			e.nextWant = "out of set ~c3 in configuration\nline two"
+			e.next = func() (string, error) {
+				m, err := d.SendConfigs([]string{"set ~c3"}, opoptions.WithTimeoutOps(c05Long))
+				if err != nil {
+					return "", err
+				}
+				return join(m), nil
+			}
+		}
+		e.nextCheck = func() string {
+			lines := dev.LinesNow()
+			for i := len(lines) - 1; i >= 0; i-- {
+				if lines[i].Line == payloadLine {
+					if lines[i].Mode != payloadMode {
+						return fmt.Sprintf("the line %q of the recovery exchange reached the device in mode %s, it demands %s", payloadLine, lines[i].Mode, payloadMode)
+					}
+					return ""
+				}
+			}
+			return fmt.Sprintf("the line %q of the recovery exchange never reached the device", payloadLine)
+		}
+		e.modelKind = "sq"
+		e.T = conn
+		e.modelParams = append([]string{"1000", "0a", strconv.Itoa(wrap), strconv.Itoa(nunits)}, units...)
+		e.wantT = func(phase int) time.Duration {
+			if phase < len(wants) {
+				return wants[phase]
 			}
 			return eff
 		}
@@ -549,6 +736,7 @@ type c05obs struct {
 	emitted   []byte // everything the device emitted from the operation's start on
 	readLog   []int  // sizes of the reads delivered from the operation's start on
 	nextRan   bool
+	nextLevel string // device-side log: "" = the recovery exchange ran at the level it demands
 	nextClass string
 	nextRes   string
 	nextPanic string
@@ -594,9 +782,9 @@ func c05guardT(f func() (string, error), wd time.Duration) (res string, err erro
 	}
 }
 
-// c05run performs one case on the real code. recoverFrom < 0: no recovery step; otherwise the next
-// exchange is run after un-stalling when the stall offset is >= recoverFrom (or there is no stall).
-func c05run(cs c05case, recoverFrom int) c05obs {
+// c05run performs one case on the real code. recoverAt says for which stall offsets the next
+// exchange is run after un-stalling (nil: never).
+func c05run(cs c05case, recoverAt func(k int) bool) c05obs {
 	var o c05obs
 	e, err := c05build(cs)
 	if err != nil {
@@ -645,10 +833,16 @@ func c05run(cs c05case, recoverFrom int) c05obs {
 		return o
 	}
 	failedOpen := e.openIsOp && opErr != nil
-	if e.next != nil && recoverFrom >= 0 && (cs.k < 0 || cs.k >= recoverFrom) && !failedOpen {
+	if e.next != nil && recoverAt != nil && (cs.k < 0 || recoverAt(cs.k)) && !failedOpen {
 		e.pipe.SetFaults(func(p *sim.Pipe) { p.StallAt = -1 })
+		if e.beforeNext != nil {
+			e.beforeNext()
+		}
 		nres, nerr, _, nhang, npanic := c05guard(e.next)
 		o.nextRan, o.nextRes, o.nextClass, o.nextHang, o.nextPanic = true, nres, errClass(nerr), nhang, npanic
+		if e.nextCheck != nil && !nhang && npanic == "" {
+			o.nextLevel = e.nextCheck()
+		}
 	}
 	if !failedOpen {
 		// a failed Open has already closed the channel (closing twice is C07's finding, not ours)
@@ -697,7 +891,7 @@ func c05phases(e *c05env, o c05obs) (starts []int) {
 func c05reference(kind string, variant int) *c05ref {
 	cs := c05case{kind: kind, variant: variant, seg: 0, setting: "ref", k: -1, seed: 1}
 	ref := &c05ref{}
-	o := c05run(cs, -1)
+	o := c05run(cs, nil)
 	e, _ := c05build(cs)
 	ref.env = e
 	if o.setupErr != "" || o.class != "nil" || o.hang || o.panicMsg != "" {
@@ -871,6 +1065,9 @@ func runC05(c *ctx) {
 					if !c.thorough() && c05variants(kind) > 1 && (v+seg)%2 == 1 && setting != "conn" {
 						continue // quick: thin out variant x segmentation for the override settings
 					}
+					if !c.thorough() && kind == "nv" && ((setting == "conn" && seg != v%3) || (setting != "conn" && seg != (v+1)%3)) {
+						continue // quick: one segmentation class per variant and setting (rotating)
+					}
 					for _, k := range c05kPoints(c, ref, c.rng) {
 						cases = append(cases, c05case{kind: kind, variant: v, seg: seg, setting: setting, k: k, seed: c.rng.U64()})
 					}
@@ -966,10 +1163,17 @@ func c05check(c *ctx, ref *c05ref, cases []c05case) {
 		return
 	}
 	lastStart := ref.starts[len(ref.starts)-1]
-	recoverFrom := lastStart
 	kind := cases[0].kind
+	recoverAt := func(k int) bool { return k >= lastStart }
+	if e0, err := c05build(cases[0]); err == nil && e0.cleanPhase != nil {
+		clean := e0.cleanPhase
+		recoverAt = func(k int) bool {
+			ph := c05stalledPhase(ref, k)
+			return k >= ref.total || (ph < len(clean) && clean[ph])
+		}
+	}
 	if kind == "au" || kind == "he" {
-		recoverFrom = -1
+		recoverAt = nil
 	}
 	conc := vlib.Conc(24)
 	if kind == "cb" {
@@ -993,7 +1197,7 @@ func c05check(c *ctx, ref *c05ref, cases []c05case) {
 				wg.Add(1)
 				go func(i int) {
 					defer wg.Done()
-					obs[i] = c05run(cases[i], recoverFrom)
+					obs[i] = c05run(cases[i], recoverAt)
 				}(i)
 			}
 			wg.Wait()
@@ -1203,6 +1407,9 @@ func c05check(c *ctx, ref *c05ref, cases []c05case) {
 				res.Fail("oracle", cl, fmt.Sprintf("after the timed-out %s the next exchange did not return", c05name(cs)), "no-recovery:hang:"+c05sig(cs))
 			case o.nextPanic != "":
 				res.Fail("oracle", cl, fmt.Sprintf("after the timed-out %s the next exchange panicked: %s", c05name(cs), o.nextPanic), "no-recovery:panic:"+c05sig(cs))
+			case o.nextLevel != "":
+				res.Fail("oracle", cl, fmt.Sprintf("after %s (stall at byte %d of %d, class %s) the device caught up and the next exchange returned class %s result %q, but the device-side log shows: %s",
+					c05name(cs), cs.k, ref.total, o.class, o.nextClass, o.nextRes, o.nextLevel), "no-recovery:wrong-level:"+c05sig(cs))
 			case o.nextClass != "nil" || o.nextRes != e.nextWant:
 				res.Fail("oracle", cl, fmt.Sprintf("after %s (stall at byte %d of %d, class %s) the device caught up, but the next exchange returned class %s result %q, expected %q",
 					c05name(cs), cs.k, ref.total, o.class, o.nextClass, o.nextRes, e.nextWant), "no-recovery:"+c05sig(cs))
